@@ -26,6 +26,7 @@ const (
 
 type gRef struct {
 	Alias     bool   // the reference names the target by its alias
+	WLit      string // what the '*' of a wildcard target stands for in this reference
 	PassItem  bool   // (list loops) the call also passes ITEM: '{{.ITEM}}': the callee's own loops must still see their own items
 	XC        bool   // (deferred call of a run: always task) the call passes XC: '{{.EXIT_CODE}}'
 	ForKind   string // how the loop list is given: "" literal list, "var" (space separated variable), "split" (variable split at ','), "sources" (the task's sources; task t0 only)
@@ -67,6 +68,7 @@ type gTask struct {
 	Internal bool
 	VUse     string // "cmd" (default), "env": where a when_changed task lets V surface
 	PrintXC  bool   // some deferred call passes XC to this task: its probes print it
+	Wild     bool   // (run: always) declared as the wildcard task '<name>-*'; its probes print the match
 	DynCount bool   // a task-level dynamic variable whose command gives a new value on every evaluation (it counts its own evaluations in a file): evaluated once per (command, dir, environment), every call of the task sees the same value
 	DynFail  bool   // a task-level dynamic variable whose command fails: the task cannot be compiled (checked per call, before deps and deduplication)
 	SrcLoop  bool   // (t0) the task has templated sources (method: none) some of its loops iterate over
@@ -105,8 +107,15 @@ type gProg struct {
 func (p *gProg) refName(from, to int) string { return p.refNameA(from, to, false) }
 
 // refNameA: alias=true names the target by its alias ("al-<name>"; aliases are namespaced like names).
-func (p *gProg) refNameA(from, to int, alias bool) string {
+func (p *gProg) refNameA(from, to int, alias bool) string { return p.refNameW(from, to, alias, "r") }
+
+// refNameW: a wildcard task 'tN-*' is called as tN-<wlit> (never by alias); MATCH is then [<wlit>].
+func (p *gProg) refNameW(from, to int, alias bool, wlit string) string {
 	n := p.Tasks[to].Name
+	if p.Tasks[to].Wild {
+		alias = false
+		n += "-" + wlit
+	}
 	if alias {
 		n = "al-" + strings.ReplaceAll(n, ":", "-")
 	}
@@ -141,6 +150,7 @@ type gBias struct {
 	FanIn        bool
 	Matrix       bool
 	FailSibling  bool // a third of the programs get a failing leaf task that is made a sibling dependency of references to deduplicated tasks
+	Wildcards    bool // a fifth of the run: always tasks are wildcard tasks
 	DynCount     bool // deduplicated tasks may get a dynamic variable that is different on every evaluation
 	IncRun       bool // the included Taskfile may declare its own top-level run: (which must not leak into the root's default)
 	LoopKinds    bool // loops take their list from a variable (plain / split) or from the task's sources
@@ -167,6 +177,7 @@ func genRef(ch *vs.Choices, p *gProg, from, n int, b gBias, allowLoop bool) (gRe
 	r := gRef{Target: from + 1 + ch.Draw(n-from-1)}
 	r.Alias = ch.Bool(1, 5)
 	r.PassItem = ch.Bool(1, 4)
+	r.WLit = []string{"p", "q"}[ch.Draw(2)]
 	if b.LoopKinds {
 		r.ForKind = []string{"", "", "var", "split", "sources"}[ch.Draw(5)]
 	}
@@ -307,6 +318,7 @@ func genG(ch *vs.Choices, b gBias) *gProg {
 		t.DynVar = b.DynVars && ch.Bool(1, 2)
 		t.DynFail = b.DynVars && b.PGuard > 0 && ch.Bool(1, 12)
 		t.DynCount = b.DynCount && ch.Bool(1, 3)
+		t.Wild = b.Wildcards && ch.Bool(1, 5)
 		if b.VEnvSub && t.Run == "when_changed" && ch.Bool(1, 2) {
 			t.VUse = "env"
 		}
@@ -527,6 +539,9 @@ func gSanitize(p *gProg, b gBias) {
 		if t.DynFail && t.Platform == "nomatch" {
 			t.DynFail = false
 		}
+		if t.Wild && (run != "always" || t.SrcLoop) {
+			t.Wild = false
+		}
 		for i := range t.Deps {
 			fix(&t.Deps[i])
 		}
@@ -721,6 +736,9 @@ func probeText(p *gProg, t *gTask, idx int, c gCmd) string {
 	if t.PrintXC {
 		extra += "|XC={{.XC}}"
 	}
+	if t.Wild {
+		extra += "|M={{if .MATCH}}{{index .MATCH 0}}{{end}}" // (listing compiles the task without a match)
+	}
 	q := `"`
 	s := fmt.Sprintf("echo %sS|%s|%s|%s|%s%s", q, pe, t.Name, lab, extra, q)
 	if c.Fail > 0 && c.FailStmt {
@@ -832,9 +850,14 @@ func (p *gProg) render(lo, hi int, root bool) string {
 		sb.WriteString("tasks:\n")
 	}
 	for _, t := range p.Tasks[lo:hi] {
-		fmt.Fprintf(&sb, "  %s:\n", yq(t.Name))
-		fmt.Fprintf(&sb, "    desc: task %s\n", t.Name)
-		fmt.Fprintf(&sb, "    aliases: [%s]\n", "al-"+strings.ReplaceAll(t.Name, ":", "-"))
+		if t.Wild {
+			fmt.Fprintf(&sb, "  %s:\n", yq(t.Name+"-*"))
+			fmt.Fprintf(&sb, "    desc: task %s\n", t.Name)
+		} else {
+			fmt.Fprintf(&sb, "  %s:\n", yq(t.Name))
+			fmt.Fprintf(&sb, "    desc: task %s\n", t.Name)
+			fmt.Fprintf(&sb, "    aliases: [%s]\n", "al-"+strings.ReplaceAll(t.Name, ":", "-"))
+		}
 		if t.Run != "" {
 			fmt.Fprintf(&sb, "    run: %s\n", t.Run)
 		}
@@ -931,7 +954,7 @@ func (p *gProg) render(lo, hi int, root bool) string {
 					}
 				}
 				item(renderFor(d, fmt.Sprintf("LD%d", k)))
-				item("task: " + yq(p.refNameA(t.Idx, d.Target, d.Alias)))
+				item("task: " + yq(p.refNameW(t.Idx, d.Target, d.Alias, d.WLit)))
 				item(renderRefVars(p, t, d, edge, false))
 			}
 		}
@@ -970,14 +993,14 @@ func (p *gProg) render(lo, hi int, root bool) string {
 			edge := "c" + labelExpr(k, c.Ref.For != nil, c.Ref.Matrix != nil)
 			if c.Defer {
 				v := renderRefVars(p, t, c.Ref, edge, c.DeferTplV)
-				fmt.Fprintf(&sb, "      - defer:\n          task: %s\n", yq(p.refNameA(t.Idx, c.Ref.Target, c.Ref.Alias)))
+				fmt.Fprintf(&sb, "      - defer:\n          task: %s\n", yq(p.refNameW(t.Idx, c.Ref.Target, c.Ref.Alias, c.Ref.WLit)))
 				if v != "" {
 					fmt.Fprintf(&sb, "          %s\n", v)
 				}
 				continue
 			}
 			item(renderFor(c.Ref, fmt.Sprintf("LC%d", k)))
-			item("task: " + yq(p.refNameA(t.Idx, c.Ref.Target, c.Ref.Alias)))
+			item("task: " + yq(p.refNameW(t.Idx, c.Ref.Target, c.Ref.Alias, c.Ref.WLit)))
 			item(renderRefVars(p, t, c.Ref, edge, false))
 			if c.Silent {
 				item("silent: true")
